@@ -652,6 +652,31 @@ pub fn record(args: &Args) {
                 let r = s.rt(id);
                 s.chk(r);
             }
+            // coupons clustered in row bands: the sorted pairs then contain row gaps of many times the mean
+            // spacing (long unary codes in the compressed table), which hashed streams practically never do
+            for &(lgk, ref bands) in &[
+                (12u8, vec![(0u32, 40u32, 1usize), (3100, 4095, 70)]),
+                (12, vec![(0, 300, 40), (2600, 4095, 40)]),
+                (12, vec![(4000, 4095, 30)]),
+                (12, vec![(0, 10, 8), (2048, 2050, 3), (4090, 4095, 5)]),
+                (10, vec![(0, 100, 48), (900, 1023, 60)]),       // hybrid flavor
+                (10, vec![(1000, 1023, 20)]),
+                (8, vec![(0, 3, 2), (250, 255, 4)]),
+            ] {
+                let mut s = Sess::new(&mut out, "cpc-clustered-rows");
+                let id = s.new_sketch(lgk);
+                for &(lo, hi, n) in bands {
+                    for _ in 0..n {
+                        let row = lo + rng.below((hi - lo + 1) as u64) as u32;
+                        let col = if rng.chance(1, 3) { 8 + rng.below(30) as u32 } else { rng.below(8) as u32 };
+                        s.upd(id, row, col, None);
+                    }
+                    let r = s.rt(id);
+                    s.chk(r);
+                }
+                let r = s.rt(id);
+                s.cont(id, r, &mut rng, 20);
+            }
             if rep == 0 || thorough {
                 for &lgk in &[7u8, 8] {
                     let mut s = Sess::new(&mut out, "cpc-crafted-walk");
